@@ -41,6 +41,7 @@ def _pause_resume(env: Env, out: Outcome, n: int, corpus: list[dict]) -> None:
     for _ in range(n):
         spec = specgen.gen_det_spec(rng, delays=rng.random() < 0.25)
         jobs.append((spec, rng.randrange(1 << 30), None, None))
+    resumed: list = []
     for spec, seed, a1, a2 in jobs:
         base = live.run_spec(copy.deepcopy(spec), seed=seed + 17)
         out.evaluations += 1
@@ -75,6 +76,7 @@ def _pause_resume(env: Env, out: Outcome, n: int, corpus: list[dict]) -> None:
         spec2["externals"] = []
         spec2["_resumed"] = True
         tr2 = live.run_spec(spec2, seed=seed + 1, replay_actions=a2, resume_from=snap["dict"])
+        resumed.append(tr2)
         case = {"pause": {"spec": spec1, "seed": seed, "actions1": tr1.actions, "actions2": tr2.actions}}
         out.count("pause:resumed")
         out.count(f"pause:inprog:{min(len(inprog), 3)}")
@@ -111,6 +113,9 @@ def _pause_resume(env: Env, out: Outcome, n: int, corpus: list[dict]) -> None:
                     first = next((r for r in tr2.steps if r[0] == "enter" and r[1] == nm and r[2] == uid), None)
                     if first is not None and first[3] != (a.attempts or 0):
                         out.violations.append(Violation("C12/queued_retry_count_changed", f"queued invocation ({nm}, {uid}) had attempts {a.attempts}; resumed as attempt {first[3]}", case))
+
+    # the resumed runs against the runner LTS (rinit without a start event)
+    suite.runner_corr(out, resumed, "engine-runner-resumed")
 
 
 def run(env: Env) -> Outcome:
